@@ -2676,6 +2676,7 @@ setattr_property0(
         return -1;
     }
     result = PyObject_Call(traitd->delegate_prefix, args, NULL);
+    Py_DECREF(args);
     if (result == NULL) {
         return -1;
     }
